@@ -192,9 +192,10 @@ theorem timeToReconnect_spec (d : Dev) (now : Time) :
   unfold timeToReconnect backoffEnd
   by_cases h : d.retryCount > 0
   · rw [if_pos h]
-    split
-    · rename_i h2; exact Or.inl ⟨rfl, Or.inr h2⟩
-    · rename_i h2; exact Or.inr ⟨rfl, h, by unfold Time at *; omega⟩
+    dsimp only
+    by_cases h2 : now ≥ d.lastRetry + rtab.getD (min (d.retryCount - 1) 6) 60 * 1000000
+    · rw [if_pos h2]; exact Or.inl ⟨rfl, Or.inr h2⟩
+    · rw [if_neg h2]; exact Or.inr ⟨rfl, h, by unfold Time at *; omega⟩
   · rw [if_neg h]
     exact Or.inl ⟨rfl, Or.inl (by omega)⟩
 
@@ -241,5 +242,281 @@ theorem reconnectDev_backCov (c : CS) (tmo : Option Time) : BackCov (reconnectDe
     simp only
     intro _ _
     exact Or.inl ⟨hlt, covers_upd_self _ _⟩
+
+/-! ## 4. the clock and the retry bookkeeping through the rest of the pass -/
+
+theorem telnetFilter_fields (d : Dev) (bs : Bytes) : (telnetFilter d bs).timeout = d.timeout ∧ (telnetFilter d bs).scripts = d.scripts ∧
+    (telnetFilter d bs).retryCount = d.retryCount ∧ (telnetFilter d bs).lastRetry = d.lastRetry := by
+  unfold telnetFilter; exact ⟨rfl, rfl, rfl, rfl⟩
+
+theorem readyConnectFail_retry (c : CS) : SameRetry c (readyConnectFail c) := by
+  apply SameRetry.mk'
+  unfold readyConnectFail; grind
+
+theorem readyConnectTail_retry (c : CS) : SameRetry c (readyConnectTail c).1 := by
+  apply SameRetry.mk'
+  unfold readyConnectTail enqueueLogin; grind
+
+theorem readyConnect_retry (c : CS) : SameRetry c (readyConnect c).1 := by
+  unfold readyConnect
+  refine SameRetry.trans ?_ (readyConnectTail_retry _)
+  split
+  · exact finishConnectOne_retry c
+  · exact (finishConnectOne_retry c).trans (readyConnectFail_retry _)
+
+theorem readyWrite_retry (c : CS) : SameRetry c (readyWrite c).1 := by
+  apply SameRetry.mk'
+  unfold readyWrite; grind
+
+theorem readyRead_retry (c : CS) : SameRetry c (readyRead c).1 := by
+  apply SameRetry.mk'
+  have := telnetFilter_fields
+  unfold readyRead; grind
+
+theorem readyTail_retry (f : Nat) (r : CS × Bool × Bool) : SameRetry r.1 (readyTail f r).1 := by
+  unfold readyTail
+  split
+  · exact SameRetry.rfl' _
+  · split
+    · exact SameRetry.rfl' _
+    · split
+      · exact readyRead_retry _
+      · exact SameRetry.rfl' _
+
+theorem handleReady_retry (c : CS) : SameRetry c (handleReady c).1 := by
+  rw [Login2.handleReady_eq]; unfold Login2.handleReady'
+  dsimp only
+  split
+  · exact SameRetry.mk' ⟨rfl, rfl, rfl, rfl, rfl⟩
+  · split
+    · exact SameRetry.mk' ⟨rfl, rfl, rfl, rfl, rfl⟩
+    · split
+      · exact SameRetry.rfl' _
+      · refine SameRetry.trans ?_ (readyTail_retry _ _)
+        split
+        · split
+          · exact readyConnect_retry c
+          · exact readyWrite_retry c
+        · exact SameRetry.rfl' _
+
+theorem reconnectDev_clock (c : CS) (tmo : Option Time) : SameClock c (reconnectDev c tmo).1 := by
+  unfold reconnectDev
+  dsimp only
+  have h0 : (if (c.dev.conn != 0) = true then disconnectDev c else c).dev.conn = 0 := by
+    split
+    · exact disconnectDev_conn c
+    · rename_i h; simpa using h
+  have h1 : SameClock c (if (c.dev.conn != 0) = true then disconnectDev c else c) := by
+    split
+    · exact (disconnectDev_retry c).toSameClock
+    · exact SameClock.rfl' _
+  generalize (if (c.dev.conn != 0) = true then disconnectDev c else c) = c1 at *
+  split
+  · exact h1.trans (connectDev_cases c1 h0).1
+  · exact h1
+  · exact h1
+
+/-! ## 5. `_process_action` as an iterated step: an induction principle -/
+
+/-- to show `Post` of a run of `_process_action` from a state satisfying `Pre`: show `Post` of every iteration that ends
+    the loop and `Pre` after every iteration that goes on (running out of the model's fuel is an abort) -/
+theorem processActionF_ind {Pre : CS → Option Time → Prop} {Post : PA → Prop}
+    (hfuel : ∀ (c : CS) o out tmo, Post ({ c with aborted := true }, o, out ++ [Out.abortAssert "model: fuel exhausted"], tmo))
+    (hstop : ∀ c o out tmo, Pre c tmo → (bodyStep c o out tmo).2 = false → Post (bodyStep c o out tmo).1)
+    (hgo : ∀ c o out tmo, Pre c tmo → (bodyStep c o out tmo).2 = true →
+        Pre (bodyStep c o out tmo).1.1 (bodyStep c o out tmo).1.2.2.2)
+    (fuel : Nat) (c : CS) (o : Oracle) (out : List Out) (tmo : Option Time) (h : Pre c tmo) :
+    Post (processActionF fuel c o out tmo) := by
+  induction fuel generalizing c o out tmo with
+  | zero => exact hfuel c o out tmo
+  | succ n ih =>
+    rw [processActionF_succ]
+    unfold andThen
+    have h1 := hstop c o out tmo h
+    have h2 := hgo c o out tmo h
+    generalize bodyStep c o out tmo = s at *
+    cases hs : s.2
+    · simpa using h1 hs
+    · simpa using ih _ _ _ _ (h2 hs)
+
+/-! ## 6. timer coverage -/
+
+/-- the head of the queue is covered: it carries a time stamp, its deadline lies ahead and the registered time-out is
+    no later than that deadline — or it is a login action that `_reconnect`, called from the error branch, has just put
+    into the (otherwise empty) queue of the freshly connected device, and that has not been looked at yet -/
+def HeadCov (c : CS) (tmo : Option Time) : Prop :=
+  ∀ h rest, c.dev.acts = h :: rest →
+    (∃ ts, h.timeStamp = some ts ∧ c.env.now < ts + c.dev.timeout ∧ Covers tmo (ts + c.dev.timeout - c.env.now)) ∨
+    (h.timeStamp = none ∧ rest = [] ∧ h.com = 0 ∧ h.clientId = 0 ∧ c.dev.conn = 2 ∧ c.dev.loggedIn = false)
+
+def TimerPost (r : PA) : Prop := r.1.aborted = false → HeadCov r.1 r.2.2.2 ∧ BackCov r.1 r.2.2.2
+
+theorem BackCov.transport {c c' : CS} {tmo tmo' : Option Time} (h : BackCov c tmo)
+    (h1 : c'.dev.conn = c.dev.conn) (h2 : c'.dev.retryCount = c.dev.retryCount) (h3 : c'.dev.lastRetry = c.dev.lastRetry)
+    (h4 : c'.env.now = c.env.now) (hm : ∀ b, Covers tmo b → Covers tmo' b) : BackCov c' tmo' := by
+  unfold BackCov backoffEnd at *
+  rw [h1, h2, h3, h4]
+  intro a b
+  rcases h a b with ⟨x, y⟩ | x
+  · exact Or.inl ⟨x, hm _ y⟩
+  · exact Or.inr x
+
+/-- `_reconnect` on an empty queue: afterwards the queue is empty, or holds exactly the fresh login action of a device
+    that is now CONNECTED -/
+theorem reconnectDev_queue (c : CS) (tmo : Option Time) (ha : c.dev.acts = []) (h2 : c.dev.conn ≠ 0)
+    (hna : (reconnectDev c tmo).1.aborted = false) :
+    (reconnectDev c tmo).1.dev.acts = [] ∨
+    ((reconnectDev c tmo).1.dev.acts = [loginAction c.dev] ∧ (reconnectDev c tmo).1.dev.conn = 2 ∧
+      (reconnectDev c tmo).1.dev.loggedIn = false) := by
+  unfold reconnectDev at hna ⊢
+  have hne : (c.dev.conn != 0) = true := by simpa using h2
+  simp only [hne, ↓reduceIte] at hna ⊢
+  have hd := disconnectDev_empty c ha
+  have hs := (disconnectDev_retry c).scripts
+  have hl := disconnectDev_loggedIn' c
+  have h0 := disconnectDev_conn c
+  generalize disconnectDev c = c1 at *
+  split
+  · rename_i heq
+    simp only [heq] at hna
+    obtain ⟨_, _, _, hlog, hq⟩ := connectDev_cases c1 h0
+    rcases hq hna with ⟨_, hq⟩ | ⟨hc, hq⟩
+    · exact Or.inl (by rw [hq, hd])
+    · refine Or.inr ⟨?_, hc, by rw [hlog, hl]⟩
+      rw [hq]; unfold enqueueLogin loginAction; simp only [hd, hs]
+  · exact Or.inl hd
+  · exact Or.inl hd
+
+theorem failAll_timer (rest : List Action) (c : CS) (a : Action) (o : Oracle) (out : List Out) (tmo : Option Time)
+    (hb : BackCov c tmo) : TimerPost (failAll rest c a o out tmo) := by
+  unfold failAll TimerPost
+  dsimp only
+  split
+  · rename_i hc2
+    have hc2' : c.dev.conn = 2 := by simpa using hc2
+    intro hna
+    refine ⟨?_, reconnectDev_backCov _ _⟩
+    have := reconnectDev_queue { c with dev := { c.dev with acts := [] } } tmo rfl (by simp [hc2']) hna
+    intro h r hh
+    rcases this with h1 | ⟨h1, h2, h3⟩
+    · rw [h1] at hh; cases hh
+    · rw [h1] at hh
+      cases hh
+      exact Or.inr ⟨rfl, rfl, rfl, rfl, h2, h3⟩
+  · intro _
+    refine ⟨?_, hb.transport rfl rfl rfl rfl (fun _ h => h)⟩
+    intro h r hh; cases hh
+
+theorem stamp_stamped (now : Time) (a : Action) : (stamp now a).timeStamp = some ((stamp now a).timeStamp.getD now) := by
+  unfold stamp
+  split
+  · rfl
+  · rename_i h
+    cases ht : a.timeStamp with
+    | none => simp [ht] at h
+    | some x => rfl
+
+theorem onRunStep_timer (rest : List Action) (c : CS) (a : Action) (o : Oracle) (out : List Out) (tmo : Option Time)
+    (left ts : Time) (hb : BackCov c tmo) (hts : a.timeStamp = some ts) (hlt : c.env.now < ts + c.dev.timeout)
+    (hleft : left = ts + c.dev.timeout - c.env.now) :
+    ((onRunStep rest c a o out tmo left).2 = false → TimerPost (onRunStep rest c a o out tmo left).1) ∧
+    ((onRunStep rest c a o out tmo left).2 = true →
+      BackCov (onRunStep rest c a o out tmo left).1.1 (onRunStep rest c a o out tmo left).1.2.2.2) := by
+  unfold onRunStep
+  dsimp only
+  have hT := innerLoop_timer c.env.now (loopBound a) { c.dev with wake := none } a o []
+  have hL := innerLoop_link c.env.now (loopBound a) { c.dev with wake := none } a o []
+  generalize innerLoop c.env.now (loopBound a) { c.dev with wake := none } a o [] = r at *
+  obtain ⟨⟨hto, hrc, hlr⟩, hstamp⟩ := hT
+  obtain ⟨⟨hconn, _⟩, _⟩ := hL
+  simp only at hto hrc hlr hconn
+  split
+  · exact ⟨fun _ hna => by simp at hna, fun h => by simp at h⟩
+  · split
+    · refine ⟨fun _ _ => ⟨?_, ?_⟩, fun h => by simp at h⟩
+      · intro h rr hh
+        cases hh
+        refine Or.inl ⟨ts, by rw [hstamp, hts], by simpa [hto] using hlt, ?_⟩
+        simp only [hto]
+        rw [← hleft]
+        exact covers_upd_self _ _
+      · refine hb.transport hconn hrc hlr rfl ?_
+        intro b hc
+        apply covers_upd
+        split
+        · exact covers_upd _ _ _ hc
+        · exact hc
+    · split
+      · split
+        · exact ⟨fun h => by simp at h, fun _ => hb.transport hconn hrc hlr rfl (fun _ h => h)⟩
+        · exact ⟨fun h => by simp at h, fun _ => hb.transport hconn hrc hlr rfl (fun _ h => h)⟩
+      · refine ⟨fun _ => failAll_timer _ _ _ _ _ _ (hb.transport hconn hrc hlr rfl (fun _ h => h)), fun h => by simp at h⟩
+
+theorem bodyStep_timer (c : CS) (o : Oracle) (out : List Out) (tmo : Option Time) (hb : BackCov c tmo) :
+    ((bodyStep c o out tmo).2 = false → TimerPost (bodyStep c o out tmo).1) ∧
+    ((bodyStep c o out tmo).2 = true → BackCov (bodyStep c o out tmo).1.1 (bodyStep c o out tmo).1.2.2.2) := by
+  unfold bodyStep
+  by_cases hab : c.aborted = true
+  · simp only [hab, ↓reduceIte]
+    exact ⟨fun _ hna => by simp [hab] at hna, fun h => by simp at h⟩
+  · simp only [hab, Bool.false_eq_true, ↓reduceIte]
+    cases hacts : c.dev.acts with
+    | nil =>
+      refine ⟨fun _ _ => ⟨?_, hb⟩, fun h => by simp at h⟩
+      intro h r hh; rw [hacts] at hh; cases hh
+    | cons a0 rest =>
+      dsimp only
+      have hst := stamp_stamped c.env.now a0
+      generalize stamp c.env.now a0 = a at *
+      generalize hts : a.timeStamp.getD c.env.now = ts at *
+      split
+      · refine ⟨fun _ => ?_, fun h => by simp at h⟩
+        rw [Fd.onTimeout_eq_failAll]
+        exact failAll_timer _ _ _ _ _ _ hb
+      · rename_i hlt
+        have hlt' : c.env.now < ts + c.dev.timeout := by unfold Time at *; omega
+        split
+        · refine ⟨fun _ _ => ⟨?_, hb.transport rfl rfl rfl rfl (fun _ h => covers_upd _ _ _ h)⟩, fun h => by simp at h⟩
+          intro h r hh
+          cases hh
+          exact Or.inl ⟨ts, hst, hlt', covers_upd_self _ _⟩
+        · exact onRunStep_timer rest c a o out tmo _ ts hb hst hlt' rfl
+
+/-- timer coverage of `_process_action`, every fuel: started with the back-off covered, a run that does not abort ends
+    with the head of the queue covered and the back-off covered -/
+theorem processActionF_timer (fuel : Nat) (c : CS) (o : Oracle) (out : List Out) (tmo : Option Time)
+    (hb : BackCov c tmo) : TimerPost (processActionF fuel c o out tmo) :=
+  processActionF_ind (Pre := BackCov) (Post := TimerPost)
+    (fun _ _ _ _ hna => by simp at hna)
+    (fun c o out tmo h => (bodyStep_timer c o out tmo h).1)
+    (fun c o out tmo h => (bodyStep_timer c o out tmo h).2) fuel c o out tmo hb
+
+theorem postPollPing_backCov (now : Time) (r : CS × Option Time) (h : BackCov r.1 r.2) :
+    BackCov (postPollPing now r).1 (postPollPing now r).2 := by
+  unfold postPollPing appendPing
+  split
+  · split
+    · split
+      · exact h.transport rfl rfl rfl rfl (fun _ h => h)
+      · exact h.transport rfl rfl rfl rfl (fun _ h => covers_upd _ _ _ h)
+    · exact h.transport rfl rfl rfl rfl (fun _ h => h)
+  · exact h
+
+theorem postPollReconnect_backCov (r : CS × Bool) : BackCov (postPollReconnect r).1 (postPollReconnect r).2 := by
+  unfold postPollReconnect
+  split
+  · exact reconnectDev_backCov _ _
+  · rename_i h
+    intro h0
+    have h0' : r.1.dev.conn = 0 := h0
+    simp [h0'] at h
+
+/-- timer coverage of a whole `dev_post_poll` pass -/
+theorem postPoll_timer (d : Dev) (env : Env) (o : Oracle) : TimerPost (postPoll d env o) := by
+  rw [Login2.postPoll_eq]
+  unfold Login2.postPoll'
+  split
+  · rename_i h; intro hna; simp [h] at hna
+  · exact processActionF_timer _ _ _ _ _ (postPollPing_backCov _ _ (postPollReconnect_backCov _))
 
 end Pm.Dev2.Timer
